@@ -256,6 +256,7 @@ def b_sparse(c, P):
         vals['default'] = s_build(P, c['dflt'])
     return [call(muxes.sparse_mux, form_of(c), [('sel', s_build(P, c['sel'])),
                                                 ('vals', dict(vals))])]      # sparse_mux mutates its argument
+    # (it replaces the 'default' entry by one entry per unlisted index: the same function, so a reused dict is fine)
 
 
 def q_sparse(c):
@@ -285,8 +286,12 @@ def b_enum(c, P):
     for k, s in c['table']:
         table[pyrtl.otherwise if k is None else E(k)] = s_build(P, s)
     d = None if c['dflt'] is None else s_build(P, c['dflt'])
-    return [call(pyrtl.enum_mux, form_of(c), [('cntrl', s_build(P, c['cntrl'])), ('table', table), ('default', d),
-                                              ('strict', c['strict'])])]
+    args = [('cntrl', s_build(P, c['cntrl'])), ('table', table), ('default', d), ('strict', c['strict'])]
+    if c.get('reuse'):
+        # a design-wide table: the SAME dict object serves a first mux, the mux under test is the second one built
+        # from it (the documented result depends on the table's contents, not on how often it has been used)
+        call(pyrtl.enum_mux, form_of(c), args)
+    return [call(pyrtl.enum_mux, form_of(c), args)]
 
 
 def q_enum(c):
@@ -1150,7 +1155,7 @@ def gen_enum(rng, tier):
                 table.insert(rng.randrange(len(table) + 1), (None, rand_src(rng, 1, DATA_POOL)))
             d = rand_src(rng, 1, DATA_POOL) if rng.random() < 0.3 else None
             out.append({'fam': 'enum_mux', 'ws': ws, 'cntrl': ('W', 0), 'members': members, 'table': table,
-                        'dflt': d, 'strict': rng.random() < 0.6})
+                        'dflt': d, 'strict': rng.random() < 0.6, 'reuse': rep % 2 == 1})
     return out
 
 
